@@ -5,6 +5,7 @@ import (
 	"fmt"
 	"github.com/bilibili/gengine/context"
 	"reflect"
+	"strings"
 )
 
 var TypeMap = map[string]string{
@@ -20,6 +21,38 @@ var TypeMap = map[string]string{
 	"uint64":  "uint64",
 	"float32": "float32",
 	"float64": "float64",
+}
+
+// compareInteger compares two integer values (signed or unsigned, any width) exactly,
+// it returns -1, 0 or 1
+func compareInteger(a, b reflect.Value) int {
+	aSigned := strings.HasPrefix(a.Kind().String(), "int")
+	bSigned := strings.HasPrefix(b.Kind().String(), "int")
+	switch {
+	case aSigned && bSigned:
+		if a.Int() < b.Int() {
+			return -1
+		} else if a.Int() > b.Int() {
+			return 1
+		}
+		return 0
+	case !aSigned && !bSigned:
+		if a.Uint() < b.Uint() {
+			return -1
+		} else if a.Uint() > b.Uint() {
+			return 1
+		}
+		return 0
+	case aSigned:
+		if a.Int() < 0 || uint64(a.Int()) < b.Uint() {
+			return -1
+		} else if uint64(a.Int()) > b.Uint() {
+			return 1
+		}
+		return 0
+	default:
+		return -compareInteger(b, a)
+	}
 }
 
 type Expression struct {
@@ -172,6 +205,28 @@ func (e *Expression) Evaluate(dc *context.DataContext, Vars map[string]reflect.V
 		//data compare
 		if l, ok1 := TypeMap[tlv.Kind().String()]; ok1 {
 			if r, ok2 := TypeMap[trv.Kind().String()]; ok2 {
+				if !strings.HasPrefix(l, "float") && !strings.HasPrefix(r, "float") {
+					//both are integers: compare exactly, float64 can't hold every 64-bit integer
+					c := compareInteger(flv, frv)
+					switch e.ComparisonOperator {
+					case "==":
+						b = reflect.ValueOf(c == 0)
+					case "!=":
+						b = reflect.ValueOf(c != 0)
+					case ">":
+						b = reflect.ValueOf(c > 0)
+					case "<":
+						b = reflect.ValueOf(c < 0)
+					case ">=":
+						b = reflect.ValueOf(c >= 0)
+					case "<=":
+						b = reflect.ValueOf(c <= 0)
+					default:
+						return reflect.ValueOf(nil), errors.New(fmt.Sprintf("line %d, column %d, code: %s, Can't be recognized ComparisonOperator: %s", e.LineNum, e.Column, e.Code, e.ComparisonOperator))
+					}
+					goto LAST
+				}
+
 				var ll float64
 				switch l {
 				case "int", "int8", "int16", "int32", "int64":
